@@ -37,6 +37,7 @@ func init() {
 	judges["ws-test-cfg"] = func(r *Run) []Finding { return onlyRules(judges["ws-test"](r), cfgRules...) }
 	judges["ws-traffic-cfg"] = func(r *Run) []Finding { return onlyRules(judges["ws-traffic"](r), cfgRules...) }
 	judges["ws-baseline"] = func(r *Run) []Finding { return nil }
+	judges["ws-reject"] = func(r *Run) []Finding { return onlyRules(ruleFindings(r), "prereq.", "psi.") }
 	judges["ws-dial"] = func(r *Run) []Finding {
 		var fs []Finding
 		for _, f := range dialFindings(r) {
@@ -194,6 +195,36 @@ func checkC02(c *Ctx) {
 	c.Batch(wsJobs(c.Seed, nTraffic, o, "ws-traffic"), obs)
 	o = GenOpts{Profile: "c02-slow", Mode: "test", MinReg: 1, MaxReg: 4, Sessions: true, MaxCount: 4, Latency: "slow", ExplicitUEs: 12, OptIEs: true}
 	c.Batch(wsJobs(c.Seed, nSlow, o, "ws-test"), obs)
+	// a conformant SMF may refuse a session (insufficient resources, unknown DNN ...): whatever the
+	// emulator does then - the pinned code stops - it may not go on with service request or release
+	// for the UE that has no session. Only the prerequisite and session-identity clauses are judged.
+	o = GenOpts{Profile: "c02-reject", Mode: "test", MinReg: 1, MaxReg: 4, Sessions: true, MaxCount: 4, Latency: "swarm-fast", ExplicitUEs: 4, OptIEs: true}
+	rj := wsJobs(c.Seed, nSlow/2, o, "ws-reject")
+	for i, j := range rj {
+		if len(j.S.UEs) == 0 {
+			continue
+		}
+		if j.S.Config.NPdu == 0 {
+			j.S.Config.NPdu = 1
+		}
+		k := i % len(j.S.UEs)
+		j.S.UEs[k].EstReject = []int{26, 27, 28, 29, 31, 33, 67, 69}[i%8]
+		if j.S.Config.NPdu <= k {
+			j.S.Config.NPdu = k + 1
+		}
+		if i%2 == 0 { // later procedures are configured for the refused UE
+			j.S.Config.NSvc, j.S.Config.NRel = max(j.S.Config.NSvc, k+1), max(j.S.Config.NRel, k+1)
+		}
+	}
+	c.Batch(rj, func(j Job, r *Run, fs []Finding) {
+		for _, e := range r.Events {
+			if e.Ev == "dl" && strings.HasSuffix(e.Label, "PDUSessionEstablishmentReject") {
+				c.Probes["session-refused-by-the-SMF"]++
+				c.Faults["establishment-reject"]++
+				break
+			}
+		}
+	})
 }
 
 // ---------- C11 ----------
